@@ -326,6 +326,7 @@ def build(rng, kind, nin=1, pos=0, ht=1, mutate=None, annex=None, enc=None, wn=3
         elif kind == "p2tr-weight": items = [ssig(lk[0][0])]
         elif kind == "p2tr-keytype":
             items = [b"\x01"]; needs_off |= F_DUP                  # any non-empty signature passes for an unknown key type
+            if mutate in ("wrongkey", "sigbyte"): valid = True     # ... so there is no signature these two could spoil
         elif kind == "p2tr-script":
             items = [ssig(lk[0][0])] if li == 0 else [ssig(lk[1][0])]
         elif kind == "p2tr-csa":
